@@ -64,6 +64,16 @@ def cases(tier, seed):
                 for _ in range(3):
                     out.append({"t": "B", "arity": 2, "klong": with_klong, "form": f, "args": [rng.choice(pool), rng.choice(pool)], "names": ["y", "x"],
                                 "list": [rng.choice(NUMS) for _ in range(rng.randint(0, 5))]})
+            # decorated callables (functools.wraps keeps the signature of the wrapped function reachable through __wrapped__)
+            for deco in ("wraps", "lru"):
+                for f in FORMS1:
+                    out.append({"t": "B", "arity": 1, "klong": with_klong, "form": f, "args": [rng.choice(ARGS)], "deco": deco})
+                for f in FORMS2:
+                    pool = NUMS if f in ("over", "eachpair") else ARGS
+                    out.append({"t": "B", "arity": 2, "klong": with_klong, "form": f, "args": [rng.choice(pool), rng.choice(pool)], "deco": deco,
+                                "list": [rng.choice(NUMS) for _ in range(rng.randint(0, 5))]})
+                for f in FORMS3[:3]:
+                    out.append({"t": "B", "arity": 3, "klong": with_klong, "form": f, "args": [rng.choice(ARGS) for _ in range(3)], "deco": deco})
             for f in FORMS3:
                 for names in (["z", "y", "x"], ["x", "z", "y"], ["y", "z", "x"]):
                     out.append({"t": "B", "arity": 3, "klong": with_klong, "form": f, "args": [rng.choice(ARGS) for _ in range(3)], "names": names})
@@ -141,7 +151,7 @@ def _pure(arity):
     return lambda x, y, z: ("r3", x, y, z)
 
 
-def _mkfn(arity, with_klong, log, numeric, names=None):
+def _mkfn(arity, with_klong, log, numeric, names=None, deco=None):
     """A Python callable that logs its positional arguments.  `names` are its parameter names: the canonical x,y,z or a
     permutation of them (the first Klong argument goes to the first declared parameter whatever it is called)."""
     def ret(*a):
@@ -156,7 +166,23 @@ def _mkfn(arity, with_klong, log, numeric, names=None):
     src = "def f(%s):\n    log.append((%s))\n    return ret(%s)\n" % (", ".join(params), "".join(n + ", " for n in names), ", ".join(names))
     ns = {"log": log, "ret": ret}
     exec(src, ns)
-    return ns["f"]
+    f = ns["f"]
+    if deco == "wraps":
+        import functools
+
+        @functools.wraps(f)
+        def wrapper(*a, **kw):
+            return f(*a, **kw)
+        return wrapper
+    if deco == "lru":
+        import functools
+        inner = f
+
+        @functools.wraps(inner)
+        def counted(*a, **kw):
+            return inner(*a, **kw)
+        return counted if with_klong else functools.wraps(inner)(lambda *a, **kw: inner(*a, **kw))
+    return f
 
 
 def _run_B(case, res):
@@ -164,7 +190,7 @@ def _run_B(case, res):
     ar, form, args = case["arity"], case["form"], case["args"]
     numeric = form in ("over", "eachpair")
     log = []
-    k["pf"] = _mkfn(ar, case["klong"], log, numeric, case.get("names"))
+    k["pf"] = _mkfn(ar, case["klong"], log, numeric, case.get("names"), case.get("deco"))
     A = [render(a) for a in args]
     lst = case.get("list")
     exp_calls = None
@@ -256,7 +282,7 @@ def _run_B(case, res):
     res["show"] = {"text": text, "python_fn": "arity %d%s%s" % (ar, " +klong" if case["klong"] else "", " params " + ",".join(case["names"]) if case.get("names") else ""), "calls_logged": len(log)}
     res["counters"]["python_calls_logged"] = len(log)
     res["counters"]["form:" + form] = 1
-    sigbase = "pycall|arity%d|%s%s|%s" % (ar, "klong" if case["klong"] else "plain", "|params:" + "".join(case["names"]) if case.get("names") else "", form)
+    sigbase = "pycall|arity%d|%s%s|%s" % (ar, "klong" if case["klong"] else "plain", ("|params:" + "".join(case["names"]) if case.get("names") else "") + ("|decorated:" + case["deco"] if case.get("deco") else ""), form)
     if exp_calls is None:
         return
     res["nontrivial"] = True
